@@ -269,29 +269,31 @@ theorem ck2_good (data : Bytes) (hlen' : data.length ≤ 9223372036854775807) :
       simp only [List.length_nil, Nat.zero_add] at hlen
       obtain ⟨hub, hok⟩ := ckHex_spec Extracted.ckGuardGw ckGuardGw_le line 0 0 (by unfold ckTeMax; omega)
       split
-      · rename_i w h; exact absurd h (hub w)
       · simp [CkGood]
-      · rename_i te k after h
-        obtain ⟨n, hn1, hn2, _, _⟩ := hok te k after h
-        subst hn1
-        unfold ckTeMax at hn2
-        split
+      · split
+        · rename_i w h; exact absurd h (hub w)
         · simp [CkGood]
-        · split
-          · split <;> simp [CkGood]
-          · have h2 : inI64 ((n : Int) + 2) = true := by rw [inI64_iff]; omega
-            simp only [h2, Bool.not_true, Bool.false_eq_true, if_false]
-            split
-            · simp only [CkGood]; omega
-            · generalize hnn : (if (n : Int) + 2 - 2 > ((rest.length : Nat) : Int) then ((rest.length : Nat) : Int)
-                  else (n : Int) + 2 - 2) = nn
-              have hb : 0 ≤ nn ∧ nn ≤ rest.length ∧ nn ≤ n := by
-                split at hnn <;> omega
+        · rename_i te k after h
+          obtain ⟨n, hn1, hn2, _, _⟩ := hok te k after h
+          subst hn1
+          unfold ckTeMax at hn2
+          split
+          · simp [CkGood]
+          · split
+            · split <;> simp [CkGood]
+            · have h2 : inI64 ((n : Int) + 2) = true := by rw [inI64_iff]; omega
+              simp only [h2, Bool.not_true, Bool.false_eq_true, if_false]
               split
-              · simp only [CkGood]
-                refine ⟨by omega, by omega, ?_⟩
-                omega
-              · simp [CkGood]
+              · simp only [CkGood]; omega
+              · generalize hnn : (if (n : Int) + 2 - 2 > ((rest.length : Nat) : Int) then ((rest.length : Nat) : Int)
+                    else (n : Int) + 2 - 2) = nn
+                have hb : 0 ≤ nn ∧ nn ≤ rest.length ∧ nn ≤ n := by
+                  split at hnn <;> omega
+                split
+                · simp only [CkGood]
+                  refine ⟨by omega, by omega, ?_⟩
+                  omega
+                · simp [CkGood]
 
 
 /-! ### http_header_parse_hoff() -/
@@ -1089,9 +1091,12 @@ theorem gwIter_ok (maxField : Nat) (st : GwSt) (m : Bytes) (hi : GwInv maxField 
         have hll := splitLf_length m [] line rest hs
         obtain ⟨hl, hmem⟩ := splitLf_nil_line hs
         have hlpos : 0 < line.length := by cases line with | nil => simp at hmem | cons _ _ => simp
-        exact gwLine_ok maxField st m _ [] m m line.length line.length rest false (by simp) (by simpa using hmm)
-          (by intro k r h; exact ⟨k, r, by simpa using h⟩) (by intro hf; cases hf)
-          (by intro _ _ _ _ _; simp only [List.length_drop]; simp at hll; omega)
+        show IterOk maxField st m (if line.length > Extracted.ckLineMaxGw then GwIter.err else _)
+        split
+        · exact ⟨fun _ hr => (nomatch hr), fun _ hr => (nomatch hr), fun _ _ hr => (nomatch hr)⟩
+        · exact gwLine_ok maxField st m _ [] m m line.length line.length rest false (by simp) (by simpa using hmm)
+            (by intro k r h; exact ⟨k, r, by simpa using h⟩) (by intro hf; cases hf)
+            (by intro _ _ _ _ _; simp only [List.length_drop]; simp at hll; omega)
     · split
       · rename_i line rest hs
         have hmm := (splitLf_mem hs).1
